@@ -11,9 +11,24 @@
 Require Import Base.
 
 (* ------------------------------------------------------------------ registration kinds *)
+(* what a function handed to push / push_async_exit looks like: a user function may share some
+   (not all three) of the marks of contextlib's own _exit_wrapper closure *)
+Inductive look :=
+  | LPlain          (* ordinary function *)
+  | LWraps          (* functools.wraps closure over *args, **kwds: __wrapped__ and free vars args, kwds *)
+  | LFree           (* free vars args, kwds only *)
+  | LWrapped        (* __wrapped__ only *)
+  | LName           (* called _exit_wrapper, nothing else *)
+  | LNameFree       (* called _exit_wrapper, free vars args, kwds *)
+  | LNameWrapped.   (* called _exit_wrapper, __wrapped__ *)
+
 Inductive regkind :=
-  | KEnter | KPushMgr | KPushFn | KPushMeth | KCallback
-  | KEnterA | KPushAMgr | KPushAFn | KPushAMeth | KACallback.
+  | KEnter | KPushMgr | KPushFn (lk : look) | KPushMeth | KCallback
+  | KEnterA | KPushAMgr | KPushAFn (lk : look) | KPushAMeth | KACallback.
+
+Definition lk_wrapped (l : look) : bool := match l with LWraps | LWrapped | LNameWrapped => true | _ => false end.
+Definition lk_name (l : look) : bool := match l with LName | LNameFree | LNameWrapped => true | _ => false end.
+Definition lk_free (l : look) : bool := match l with LWraps | LFree | LNameFree => true | _ => false end.
 
 (* how the object handed to the registration method is reachable from the stored callback *)
 Inductive crel := RSelfIs     (* callback.__self__ is the registered manager *)
@@ -35,7 +50,7 @@ Record avec := {
 }.
 
 Definition is_sync_kind (k : regkind) : bool :=
-  match k with KEnter | KPushMgr | KPushFn | KPushMeth | KCallback => true | _ => false end.
+  match k with KEnter | KPushMgr | KPushFn _ | KPushMeth | KCallback => true | _ => false end.
 
 (* contextlib's representation (CPython 3.8+): _push_cm_exit stores MethodType(type(cm).__exit__, cm),
    push(f)/push_async_exit(f) store f itself, callback/push_async_callback store a closure
@@ -50,9 +65,9 @@ Definition cl_attrs (k : regkind) (falsy exitname : bool) : avec :=
   | KPushMeth | KPushAMeth =>
       {| a_sync := s; a_has_self := true; a_is_method := true; a_exitish := exitname; a_wrapped := false;
          a_wname := false; a_isfun := false; a_freevars := false; a_truthy := negb falsy; a_rel := RIs |}
-  | KPushFn | KPushAFn =>
-      {| a_sync := s; a_has_self := false; a_is_method := false; a_exitish := false; a_wrapped := false;
-         a_wname := false; a_isfun := true; a_freevars := false; a_truthy := true; a_rel := RIs |}
+  | KPushFn lk | KPushAFn lk =>
+      {| a_sync := s; a_has_self := false; a_is_method := false; a_exitish := false; a_wrapped := lk_wrapped lk;
+         a_wname := lk_name lk; a_isfun := true; a_freevars := lk_free lk; a_truthy := true; a_rel := RIs |}
   | KCallback | KACallback =>
       {| a_sync := s; a_has_self := false; a_is_method := false; a_exitish := false; a_wrapped := true;
          a_wname := true; a_isfun := true; a_freevars := true; a_truthy := true; a_rel := RWrappedIs |}
@@ -91,6 +106,7 @@ Inductive mgr :=
   | MPlain                         (* class-based manager, function, anything without glue *)
   | MGen (f : frm)                 (* made by @contextmanager / @asynccontextmanager; f = mgr.gen *)
   | MStack (cbs : list cb)         (* ExitStack / AsyncExitStack and its _exit_callbacks *)
+  | MFaulty                        (* like MPlain, but its __repr__ raises (fault injection) *)
 with frm := Frm (code : nat) (ws : list wth) (t : tail)
 with tail := TStop | TDeleg (f : frm) | TExit (w : wth)
           | TExitS (w : wth) (cur : mgr)   (* w is an exit stack in the middle of its __exit__: its callbacks are
@@ -114,6 +130,33 @@ Inductive cout :=
   | CFuel
 with fout := FOut (code : nat) (cs : list cout) | FFuel.
 
+(* ------------------------------------------------------------------ contained faults *)
+(* Does fill_context on this manager raise?  elaborate_exit_stack calls repr(manager) for the
+   enter_context form and format_funcname (-> repr of the receiver) for a pushed bound method; an
+   exception there, or in the fill_context of a child, leaves the loop and propagates.  A
+   generator-based manager never raises: its inner extraction contains faults itself. *)
+Definition is_faulty (m : mgr) : bool := match m with MFaulty => true | _ => false end.
+Definition needs_repr (c : cls) : bool :=
+  match c_sel c, c_arg c with
+  | SelSelf, AReprSelf | SelSelf, AFuncname => true
+  | _, _ => false
+  end.
+Fixpoint raises (fuel : nat) (m : mgr) : bool :=
+  match fuel with
+  | 0 => false
+  | S n =>
+    match m with
+    | MStack cbs =>
+        existsb (fun c => match c with Cb _ _ _ a _ _ m' =>
+                   let c0 := classify a in
+                   match c_sel c0 with
+                   | SelSelf => (is_faulty m' && needs_repr c0) || raises n m'
+                   | SelCallback => false
+                   end end) cbs
+    | _ => false
+    end
+  end.
+
 (* ------------------------------------------------------------------ the unfolding *)
 Section Mapi.
   Context {A B : Type} (f : nat -> A -> B).
@@ -135,7 +178,7 @@ Fixpoint fill (fuel : nat) (exiting : bool) (root : rootk) (path : list nat) (i 
     match w with
     | Wth oid async named m =>
       match m with
-      | MPlain => COut oid async exiting None [] i
+      | MPlain | MFaulty => COut oid async exiting None [] i
       | MGen f => COut oid async exiting (if exiting then None else Some (series n f)) [] i
       | MStack cbs =>
           COut oid async exiting None
@@ -159,19 +202,21 @@ with series (fuel : nat) (f : frm) : list fout :=
   | S n =>
     match f with
     | Frm code ws t =>
-      let top := fun w => match w with Wth _ _ named _ =>
-                   fill n false (if named then RName else RUnderscore) [] KTop w end in
-      let cs := map top ws in
+      (* each context of a frame is filled inside its own try/except (extract_iter): one whose
+         fill_context raises stays as contexts_active_in_frame made it (no children, no
+         inner_stack); the others are unaffected *)
+      let top := fun ex w => match w with Wth oid async named m =>
+                   if raises n m then COut oid async ex None [] KTop
+                   else fill n ex (if named then RName else RUnderscore) [] KTop w end in
+      let cs := map (top false) ws in
       match t with
       | TStop => [FOut code cs]
       | TDeleg g => FOut code cs :: series n g
       | TExit w =>
-          FOut code (cs ++ [match w with Wth _ _ named _ =>
-                              fill n true (if named then RName else RUnderscore) [] KTop w end])
+          FOut code (cs ++ [top true w])
           :: match w with Wth _ _ _ (MGen g) => series n g | _ => [] end
       | TExitS w cur =>
-          FOut code (cs ++ [match w with Wth _ _ named _ =>
-                              fill n true (if named then RName else RUnderscore) [] KTop w end])
+          FOut code (cs ++ [top true w])
           :: match cur with MGen g => series n g | _ => [] end
       end
     end
@@ -237,7 +282,7 @@ with fout_eqb (a b : fout) {struct a} : bool :=
 Fixpoint avec_ok_mgr (fuel : nat) (m : mgr) : bool :=
   match fuel with 0 => false | S n =>
     match m with
-    | MPlain => true
+    | MPlain | MFaulty => true
     | MGen f => avec_ok_frm n f
     | MStack cbs => forallb (fun c => match c with Cb k falsy exitname a _ _ m' =>
                        avec_eqb a (cl_attrs k falsy exitname) && avec_ok_mgr n m' end) cbs
@@ -283,10 +328,13 @@ Definition extract_seq (fuel : nat) (h : list (option frm)) : list hres :=
   map (fun s => match s with None => HFaulted | Some f => HOk (series fuel f) end) h.
 
 (* hist: the same (still entered) tree extracted several times, with a faulted extraction in between *)
-Record hist_case := { h_root : frm; h_obs : list (list fout) }.
+(* h_faulty = the same tree with the managers whose __repr__ raised during the faulted extraction
+   marked MFaulty; h_fobs = what that faulted extraction returned *)
+Record hist_case := { h_root : frm; h_obs : list (list fout); h_faulty : frm; h_fobs : list fout }.
 Definition hist_ok (c : hist_case) : bool :=
   avec_ok_frm case_fuel (h_root c) && (2 <=? length (h_obs c)) &&
-  forallb (fun o => leqb fout_eqb (series case_fuel (h_root c)) o) (h_obs c).
+  forallb (fun o => leqb fout_eqb (series case_fuel (h_root c)) o) (h_obs c) &&
+  leqb fout_eqb (series case_fuel (h_faulty c)) (h_fobs c).
 Definition hist_mismatches (cs : list hist_case) : list nat := false_indices 0 (map hist_ok cs).
 Definition hist_nontrivial (cs : list hist_case) : nat := length cs.
 
